@@ -401,3 +401,285 @@ Proof.
     [|exact H|exact F].
   intros w a O. apply wstep_keeps_identity.
 Qed.
+
+(* ================================================================================================ *)
+(* C10: after a logout the browser stays logged out until it shows a credential again               *)
+(* ================================================================================================ *)
+
+(* a session without identity keeps none over every step that is not an issuing step *)
+Lemma step_stays_anonymous C cfg b w a O :
+  alookup k_uid (jar_get b (w_sess w)) = None -> ~ (exists U, issued_at C cfg w a O b U) ->
+  alookup k_uid (jar_get b (w_sess (fst (step C cfg w a O)))) = None.
+Proof.
+  intros H N. destruct (alookup k_uid (jar_get b (w_sess (fst (step C cfg w a O))))) as [U|] eqn:E; [|reflexivity].
+  exfalso. apply N. exists U. apply step_issued; [exact E|]. rewrite H. discriminate.
+Qed.
+Lemma wstep_stays_anonymous C cfg b w a O :
+  alookup k_uid (jar_get b (w_sess w)) = None -> ~ (exists U, wissued_at C cfg w a O b U) ->
+  alookup k_uid (jar_get b (w_sess (fst (wstep C cfg w a O)))) = None.
+Proof.
+  intros H N. destruct (alookup k_uid (jar_get b (w_sess (fst (wstep C cfg w a O))))) as [U|] eqn:E; [|reflexivity].
+  exfalso. apply N. exists U. apply wstep_issued; [exact E|]. rewrite H. discriminate.
+Qed.
+
+(* anonymous sessions along a history, from any world *)
+Lemma history_stays_anonymous_lemma C cfg w l b :
+  alookup k_uid (jar_get b (w_sess w)) = None ->
+  (forall p a O s, l = p ++ (a, O) :: s -> ~ exists U, issued_at C cfg (fst (run C cfg w p)) a O b U) ->
+  alookup k_uid (jar_get b (w_sess (fst (run C cfg w l)))) = None.
+Proof.
+  intros H F. rewrite run_grun.
+  apply (grun_invariant_sem (step C cfg) (fun w => alookup k_uid (jar_get b (w_sess w)) = None)
+           (fun w a O => exists U, issued_at C cfg w a O b U)); [|exact H|].
+  - intros w1 a O. apply step_stays_anonymous.
+  - intros p a O s E. rewrite <- run_grun. exact (F p a O s E).
+Qed.
+Lemma whistory_stays_anonymous_lemma C cfg w l b :
+  alookup k_uid (jar_get b (w_sess w)) = None ->
+  (forall p a O s, l = p ++ (a, O) :: s -> ~ exists U, wissued_at C cfg (fst (wrun C cfg w p)) a O b U) ->
+  alookup k_uid (jar_get b (w_sess (fst (wrun C cfg w l)))) = None.
+Proof.
+  intros H F. rewrite wrun_grun.
+  apply (grun_invariant_sem (wstep C cfg) (fun w => alookup k_uid (jar_get b (w_sess w)) = None)
+           (fun w a O => exists U, wissued_at C cfg w a O b U)); [|exact H|].
+  - intros w1 a O. apply wstep_stays_anonymous.
+  - intros p a O s E. rewrite <- wrun_grun. exact (F p a O s E).
+Qed.
+
+(* position i = length l1 is a logout of browser b whose response was written; l2 is what follows
+   up to position j; no step of l2 is an issuing step for b in the world it starts from *)
+Lemma history_stays_logged_out_lemma C cfg w0 l1 req O l2 :
+  q_route req = RLogout -> q_meth req = c_logout_method cfg -> q_meth req <> PUT -> has_mod cfg MLogout = true ->
+  let b := q_browser req in
+  ob_resp (snd (step C cfg (fst (run C cfg w0 l1)) (AReq req) O)) <> None ->
+  (forall p a O' s, l2 = p ++ (a, O') :: s ->
+     ~ exists U, issued_at C cfg (fst (run C cfg w0 (l1 ++ (AReq req, O) :: p))) a O' b U) ->
+  alookup k_uid (jar_get b (w_sess (fst (run C cfg w0 (l1 ++ (AReq req, O) :: l2))))) = None.
+Proof.
+  intros R M NP HM b Wr F.
+  destruct (step_logout_lemma C cfg (fst (run C cfg w0 l1)) req O R M NP HM) as (_ & A & _).
+  destruct (A Wr) as (_ & _ & Hu & _). fold b in Hu.
+  assert (Ec : forall p, fst (run C cfg w0 (l1 ++ (AReq req, O) :: p)) =
+                         fst (run C cfg (fst (step C cfg (fst (run C cfg w0 l1)) (AReq req) O)) p)).
+  { intros p. rewrite !run_grun. apply grun_mid. }
+  rewrite Ec. apply history_stays_anonymous_lemma; [exact Hu|].
+  intros p a O' s E. rewrite <- Ec. exact (F p a O' s E).
+Qed.
+
+Lemma whistory_stays_logged_out_lemma C cfg w0 l1 req O l2 :
+  q_route req = RLogout -> q_meth req = c_logout_method cfg -> q_meth req <> PUT -> has_mod cfg MLogout = true ->
+  let b := q_browser req in
+  ob_resp (snd (wstep C cfg (fst (wrun C cfg w0 l1)) (AReq req) O)) <> None ->
+  (forall p a O' s, l2 = p ++ (a, O') :: s ->
+     ~ exists U, wissued_at C cfg (fst (wrun C cfg w0 (l1 ++ (AReq req, O) :: p))) a O' b U) ->
+  alookup k_uid (jar_get b (w_sess (fst (wrun C cfg w0 (l1 ++ (AReq req, O) :: l2))))) = None.
+Proof.
+  intros R M NP HM b Wr F.
+  destruct (wstep_logout_lemma C cfg (fst (wrun C cfg w0 l1)) req O R M NP HM) as (_ & _ & A & _).
+  destruct (A Wr) as (_ & _ & Hu & _). fold b in Hu.
+  assert (Ec : forall p, fst (wrun C cfg w0 (l1 ++ (AReq req, O) :: p)) =
+                         fst (wrun C cfg (fst (wstep C cfg (fst (wrun C cfg w0 l1)) (AReq req) O)) p)).
+  { intros p. rewrite !wrun_grun. apply grun_mid. }
+  rewrite Ec. apply whistory_stays_anonymous_lemma; [exact Hu|].
+  intros p a O' s E. rewrite <- Ec. exact (F p a O' s E).
+Qed.
+
+(* the same with a class of actions that can be read off the request alone: a request of b on one
+   of the eight login paths (route and method; for the application routes: a stack with the remember
+   middleware), or a harness action on b's session jar *)
+Definition may_issue_identity (b : bytes) (a : action) : Prop :=
+  (exists req, a = AReq req /\ q_browser req = b /\ can_login req = true) \/
+  (exists v, a = APlant b k_uid v) \/
+  (exists j, a = ASetJar false b j).
+
+(* under the wrapper every module route can also log in by cookie *)
+Definition wmay_issue_identity (cfg : config) (b : bytes) (a : action) : Prop :=
+  (exists req, a = AReq req /\ q_browser req = b /\
+     (can_login req = true \/ (c_wrap_remember cfg = true /\ is_app (q_route req) = false))) \/
+  (exists v, a = APlant b k_uid v) \/
+  (exists j, a = ASetJar false b j).
+
+Lemma credential_shown_can_login C cfg w O req U : credential_shown C cfg w O req U -> can_login req = true.
+Proof.
+  unfold credential_shown, can_login. cbv zeta.
+  intros [(R & M & _)|[(R & M & _)|[(R & M & _)|[(R & M & _)|[(pv & R & M & _)|[(R & M & _)|[(R & M & _)|
+          (full & tf & fr & l & c & e & R & _)]]]]]]]; rewrite R; try (rewrite M; reflexivity).
+  destruct (q_meth req); reflexivity.
+Qed.
+
+Lemma issued_may_issue C cfg w a O b U : issued_at C cfg w a O b U -> may_issue_identity b a.
+Proof.
+  intros [(req & A & B & Cs)|[->|(j & -> & _)]].
+  - left. exists req. split; [exact A|]. split; [exact B|]. exact (credential_shown_can_login _ _ _ _ _ _ Cs).
+  - right; left. exists U. reflexivity.
+  - right; right. exists j. reflexivity.
+Qed.
+
+Lemma wissued_may_issue C cfg w a O b U : wissued_at C cfg w a O b U -> wmay_issue_identity cfg b a.
+Proof.
+  intros [(req & A & B & Cs)|[->|(j & -> & _)]].
+  - left. exists req. split; [exact A|]. split; [exact B|]. cbv zeta in Cs.
+    destruct Cs as [(_ & Cs)|(W & NA & _)].
+    + left. exact (credential_shown_can_login _ _ _ _ _ _ Cs).
+    + right. auto.
+  - right; left. exists U. reflexivity.
+  - right; right. exists j. reflexivity.
+Qed.
+
+Lemma Forall_mid {A} (P : A -> Prop) p x s : Forall P (p ++ x :: s) -> P x.
+Proof. intros F. apply Forall_app in F as [_ F]. inversion F; subst. assumption. Qed.
+
+Lemma history_stays_logged_out_routes_lemma C cfg w0 l1 req O l2 :
+  q_route req = RLogout -> q_meth req = c_logout_method cfg -> q_meth req <> PUT -> has_mod cfg MLogout = true ->
+  let b := q_browser req in
+  ob_resp (snd (step C cfg (fst (run C cfg w0 l1)) (AReq req) O)) <> None ->
+  Forall (fun ao => ~ may_issue_identity b (fst ao)) l2 ->
+  alookup k_uid (jar_get b (w_sess (fst (run C cfg w0 (l1 ++ (AReq req, O) :: l2))))) = None.
+Proof.
+  intros R M NP HM b Wr F. apply history_stays_logged_out_lemma; try assumption.
+  intros p a O' s E [U Is]. subst l2. apply (Forall_mid _ _ _ _ F). exact (issued_may_issue _ _ _ _ _ _ _ Is).
+Qed.
+
+Lemma whistory_stays_logged_out_routes_lemma C cfg w0 l1 req O l2 :
+  q_route req = RLogout -> q_meth req = c_logout_method cfg -> q_meth req <> PUT -> has_mod cfg MLogout = true ->
+  let b := q_browser req in
+  ob_resp (snd (wstep C cfg (fst (wrun C cfg w0 l1)) (AReq req) O)) <> None ->
+  Forall (fun ao => ~ wmay_issue_identity cfg b (fst ao)) l2 ->
+  alookup k_uid (jar_get b (w_sess (fst (wrun C cfg w0 (l1 ++ (AReq req, O) :: l2))))) = None.
+Proof.
+  intros R M NP HM b Wr F. apply whistory_stays_logged_out_lemma; try assumption.
+  intros p a O' s E [U Is]. subst l2. apply (Forall_mid _ _ _ _ F). exact (wissued_may_issue _ _ _ _ _ _ _ Is).
+Qed.
+
+(* ================================================================================================ *)
+(* Non-vacuity: a concrete history (executable crypto instance)                                     *)
+(* ================================================================================================ *)
+Definition hx_cfg (wrap : bool) : config :=
+  mkConfig [MAuth; MLogout] false false false false false false 3 300 3600 600 3600 (bs "/auth")
+           false false false DELETE GET false [] RespNotFound [] [] true false wrap.
+Definition hx_pid := bs "a@x.io".
+Definition hx_user : user :=
+  blank_user <| u_pid := hx_pid |> <| u_email := hx_pid |> <| u_password := exec_pwhash (bs "password1") |>
+             <| u_confirmed := true |>.
+Definition hx_oracle : oracle := mkOracle 1000 [] [] [] (mkPA false false [] [] [] [] 0).
+Definition hx_login : request :=
+  mkRequest (bs "b1") POST RLogin (bs "/login") [] [] [(f_email, hx_pid); (f_password, bs "password1")] false.
+Definition hx_page : request := mkRequest (bs "b1") GET RLogin (bs "/login") [] [] [] false.
+Definition hx_logout : request := mkRequest (bs "b1") DELETE RLogout (bs "/logout") [] [] [] false.
+(* seed the account, log in, look at a page, lock the account *)
+Definition hx_prefix : list (action * oracle) := [(ASeed hx_user [], hx_oracle); (AReq hx_login, hx_oracle)].
+Definition hx_rest : list (action * oracle) := [(AReq hx_page, hx_oracle); (ALock hx_pid, hx_oracle)].
+Definition hx_history := hx_prefix ++ hx_rest.
+
+Lemma hx_library : library_history hx_history.
+Proof. repeat constructor. Qed.
+
+Lemma hx_run_names wrap :
+  alookup k_uid (jar_get (bs "b1") (w_sess (fst (run XC (hx_cfg wrap) empty_world hx_history)))) = Some hx_pid.
+Proof. destruct wrap; vm_compute; reflexivity. Qed.
+Lemma hx_wrun_names wrap :
+  alookup k_uid (jar_get (bs "b1") (w_sess (fst (wrun XC (hx_cfg wrap) empty_world hx_history)))) = Some hx_pid.
+Proof. destruct wrap; vm_compute; reflexivity. Qed.
+
+Lemma hx_prefix_has wrap :
+  ahas k_uid (jar_get (bs "b1") (w_sess (fst (run XC (hx_cfg wrap) empty_world hx_prefix)))) = true /\
+  ahas k_uid (jar_get (bs "b1") (w_sess (fst (wrun XC (hx_cfg wrap) empty_world hx_prefix)))) = true.
+Proof. destruct wrap; vm_compute; auto. Qed.
+
+Lemma hx_rest_keeps cfg : Forall (fun ao => ~ may_remove_identity cfg (bs "b1") (fst ao)) hx_rest.
+Proof.
+  repeat constructor; cbn [fst].
+  - intros [(req & Ha & _ & [(R & _)|(full & tf & fr & l & c & r & R)])|(j & Ha & _)];
+      try discriminate Ha; inversion Ha; subst req; discriminate R.
+  - intros [(req & Ha & _)|(j & Ha & _)]; discriminate Ha.
+Qed.
+
+Lemma hx_logout_written wrap :
+  q_route hx_logout = RLogout /\ q_meth hx_logout = c_logout_method (hx_cfg wrap) /\ q_meth hx_logout <> PUT /\
+  has_mod (hx_cfg wrap) MLogout = true /\
+  ob_resp (snd (step XC (hx_cfg wrap) (fst (run XC (hx_cfg wrap) empty_world hx_prefix)) (AReq hx_logout) hx_oracle)) <> None /\
+  ob_resp (snd (wstep XC (hx_cfg wrap) (fst (wrun XC (hx_cfg wrap) empty_world hx_prefix)) (AReq hx_logout) hx_oracle)) <> None.
+Proof. destruct wrap; vm_compute; repeat split; discriminate. Qed.
+
+Lemma hx_rest_no_issue : Forall (fun ao => ~ may_issue_identity (bs "b1") (fst ao)) hx_rest.
+Proof.
+  repeat constructor; cbn [fst].
+  - intros [(req & Ha & _ & CL)|[(v & Ha)|(j & Ha)]]; try discriminate Ha. inversion Ha; subst req. discriminate CL.
+  - intros [(req & Ha & _)|[(v & Ha)|(j & Ha)]]; discriminate Ha.
+Qed.
+(* without the wrapper the wrapped class is the plain one *)
+Lemma hx_rest_no_wissue : Forall (fun ao => ~ wmay_issue_identity (hx_cfg false) (bs "b1") (fst ao)) hx_rest.
+Proof.
+  repeat constructor; cbn [fst].
+  - intros [(req & Ha & _ & [CL|(W & _)])|[(v & Ha)|(j & Ha)]]; try discriminate Ha; try discriminate W.
+    inversion Ha; subst req. discriminate CL.
+  - intros [(req & Ha & _)|[(v & Ha)|(j & Ha)]]; discriminate Ha.
+Qed.
+(* with the wrapper: only administrative actions are outside the class *)
+Lemma hx_admin_no_wissue cfg :
+  Forall (fun ao => ~ wmay_issue_identity cfg (bs "b1") (fst ao)) [(ALock hx_pid, hx_oracle)].
+Proof.
+  repeat constructor; cbn [fst]. intros [(req & Ha & _)|[(v & Ha)|(j & Ha)]]; discriminate Ha.
+Qed.
+
+(* the hypotheses of the history theorems, packaged *)
+Lemma hx_provenance_witness :
+  exists C cfg l w' os b U,
+    run C cfg empty_world l = (w', os) /\ library_history l /\ alookup k_uid (jar_get b (w_sess w')) = Some U.
+Proof.
+  exists XC, (hx_cfg false), hx_history, (fst (run XC (hx_cfg false) empty_world hx_history)),
+         (snd (run XC (hx_cfg false) empty_world hx_history)), (bs "b1"), hx_pid.
+  split; [apply surjective_pairing|]. split; [exact hx_library|exact (hx_run_names false)].
+Qed.
+Lemma hx_wprovenance_witness :
+  exists C cfg l w' os b U,
+    c_wrap_remember cfg = true /\
+    wrun C cfg empty_world l = (w', os) /\ library_history l /\ alookup k_uid (jar_get b (w_sess w')) = Some U.
+Proof.
+  exists XC, (hx_cfg true), hx_history, (fst (wrun XC (hx_cfg true) empty_world hx_history)),
+         (snd (wrun XC (hx_cfg true) empty_world hx_history)), (bs "b1"), hx_pid.
+  split; [reflexivity|]. split; [apply surjective_pairing|]. split; [exact hx_library|exact (hx_wrun_names true)].
+Qed.
+Lemma hx_kept_witness :
+  exists C cfg w0 l1 (l2 : list (action * oracle)) b,
+    l2 <> [] /\ ahas k_uid (jar_get b (w_sess (fst (run C cfg w0 l1)))) = true /\
+    Forall (fun ao => ~ may_remove_identity cfg b (fst ao)) l2.
+Proof.
+  exists XC, (hx_cfg false), empty_world, hx_prefix, hx_rest, (bs "b1").
+  split; [discriminate|]. split; [exact (proj1 (hx_prefix_has false))|apply hx_rest_keeps].
+Qed.
+Lemma hx_wkept_witness :
+  exists C cfg w0 l1 (l2 : list (action * oracle)) b,
+    c_wrap_remember cfg = true /\
+    l2 <> [] /\ ahas k_uid (jar_get b (w_sess (fst (wrun C cfg w0 l1)))) = true /\
+    Forall (fun ao => ~ may_remove_identity cfg b (fst ao)) l2.
+Proof.
+  exists XC, (hx_cfg true), empty_world, hx_prefix, hx_rest, (bs "b1").
+  split; [reflexivity|]. split; [discriminate|]. split; [exact (proj2 (hx_prefix_has true))|apply hx_rest_keeps].
+Qed.
+Lemma hx_logged_out_witness :
+  exists C cfg w0 l1 req O (l2 : list (action * oracle)),
+    l2 <> [] /\
+    q_route req = RLogout /\ q_meth req = c_logout_method cfg /\ q_meth req <> PUT /\ has_mod cfg MLogout = true /\
+    alookup k_uid (jar_get (q_browser req) (w_sess (fst (run C cfg w0 l1)))) <> None /\
+    ob_resp (snd (step C cfg (fst (run C cfg w0 l1)) (AReq req) O)) <> None /\
+    Forall (fun ao => ~ may_issue_identity (q_browser req) (fst ao)) l2.
+Proof.
+  exists XC, (hx_cfg false), empty_world, hx_prefix, hx_logout, hx_oracle, hx_rest.
+  destruct (hx_logout_written false) as (R & M & NP & HM & W1 & _).
+  split; [discriminate|]. do 4 (split; [assumption|]). split; [vm_compute; discriminate|].
+  split; [exact W1|exact hx_rest_no_issue].
+Qed.
+Lemma hx_wlogged_out_witness :
+  exists C cfg w0 l1 req O (l2 : list (action * oracle)),
+    c_wrap_remember cfg = true /\ l2 <> [] /\
+    q_route req = RLogout /\ q_meth req = c_logout_method cfg /\ q_meth req <> PUT /\ has_mod cfg MLogout = true /\
+    alookup k_uid (jar_get (q_browser req) (w_sess (fst (wrun C cfg w0 l1)))) <> None /\
+    ob_resp (snd (wstep C cfg (fst (wrun C cfg w0 l1)) (AReq req) O)) <> None /\
+    Forall (fun ao => ~ wmay_issue_identity cfg (q_browser req) (fst ao)) l2.
+Proof.
+  exists XC, (hx_cfg true), empty_world, hx_prefix, hx_logout, hx_oracle, [(ALock hx_pid, hx_oracle)].
+  destruct (hx_logout_written true) as (R & M & NP & HM & _ & W1).
+  split; [reflexivity|]. split; [discriminate|]. do 4 (split; [assumption|]). split; [vm_compute; discriminate|].
+  split; [exact W1|apply hx_admin_no_wissue].
+Qed.
